@@ -64,7 +64,7 @@ REJECT_LABELS = {"syntax", "type", "name", "index", "unresolvable", "malformed",
 
 
 def plan(tier, seed):
-    return [{"cmd": c, "part": i, "parts": 5} for c in ("path", "pointer", "patch") for i in range(5)] + [{"cmd": c, "part": -1, "parts": 5, "encodings": True} for c in ("path", "pointer", "patch")] + [{"cmd": c, "part": -2, "parts": 5, "scale": True} for c in ("path", "pointer", "patch")] + [{"cmd": c, "part": -3, "parts": 5, "hyphens": True} for c in ("path", "pointer", "patch")]
+    return [{"cmd": c, "part": i, "parts": 5} for c in ("path", "pointer", "patch") for i in range(5)] + [{"cmd": c, "part": -1, "parts": 5, "encodings": True} for c in ("path", "pointer", "patch")] + [{"cmd": c, "part": -2, "parts": 5, "scale": True} for c in ("path", "pointer", "patch")] + [{"cmd": c, "part": -3, "parts": 5, "hyphens": True} for c in ("path", "pointer", "patch")] + [{"kind": "threads", "rounds": 6 if tier == "quick" else 40}]
 
 
 class Files:
@@ -272,6 +272,104 @@ def check(ctx, files, cmd, label, expr, doc_ok, opts, use_subprocess, repo, doc_
         ctx.sample({"argv": argv, "exit": status, "stdout": out[:80], "stderr": err[:100], "mode": mode})
 
 
+def run_threads(ctx, rounds):
+    """Invocations of the three sub-commands running at the same time in one process (a server or a test runner driving
+    the tool's own parser and handlers from several threads), with injected yields inside the tool and the library.
+    Every invocation has its own files; its exit status and output file must be what the same invocation gives alone,
+    i.e. what the library call with ITS options returns. Invocations differ in exactly the options that change what an
+    expression means (type checks, escape decoding, URI decoding)."""
+    import threading
+
+    import jsonpath.cli as cli
+    from rt import threads
+    from rt.harness import VERIF
+
+    tmp = os.path.join(VERIF, "out", "C18", "tmp-threads")
+    shutil.rmtree(tmp, ignore_errors=True)
+    files = Files(tmp)
+    lock = threading.Lock()
+    pdoc = json.dumps({"a": [1, 2, 3], "b": {"c": 1}, "A": "decoded", "\\u0041": "raw", "items": [{"v": 1}, {"v": 12}]})
+    qdoc = json.dumps({"a b": "decoded", "a%20b": "raw", "A": "decoded-u", "\\u0041": "raw-u", "list": [1, 2]})
+    pool = []
+    for expr in ("$[?count(@..*)]", "$.items[?length(@.*) > 1]", "$.a[?@ == true || count(@) == 1]", '$["\\u0041"]', "$..[?@.v > 1 && @.v < 100].v", "$.a[*]", "$.b[?@.c == 1]", "$["):
+        for ntc in (False, True):
+            for nue in (False, True):
+                pool.append(("path", expr, pdoc, {"no_type_checks": ntc, "no_unicode_escape": nue, "uri_decode": False, "doc_stdin": False}))
+    for expr in ("/a%20b", "/\\u0041", "/a b", "/list/1", "/zz", "/A"):
+        for ud in (False, True):
+            for nue in (False, True):
+                pool.append(("pointer", expr, qdoc, {"no_type_checks": False, "no_unicode_escape": nue, "uri_decode": ud, "doc_stdin": False}))
+    for ops in ([{"op": "replace", "path": "/a%20b", "value": 9}], [{"op": "remove", "path": "/\\u0041"}], [{"op": "add", "path": "/list/-", "value": 3}, {"op": "test", "path": "/a b", "value": "decoded"}], [{"op": "remove", "path": "/zz"}]):
+        for ud in (False, True):
+            for nue in (False, True):
+                pool.append(("patch", json.dumps(ops), qdoc, {"no_type_checks": False, "no_unicode_escape": nue, "uri_decode": ud, "doc_stdin": False}))
+    wants = [library_outcome(cmd, expr, doc, opts) for cmd, expr, doc, opts in pool]
+    docfiles = {pdoc: files.write(pdoc), qdoc: files.write(qdoc)}
+    patchfiles = {expr: files.write(expr) for cmd, expr, _d, _o in pool if cmd == "patch"}
+    ctx.count("distinct_invocations_in_the_thread_pool", len(pool))
+    ctx.cell("thread_pool_outcomes", "accepted", sum(1 for w in wants if w[0] == "ok"))
+    ctx.cell("thread_pool_outcomes", "rejected", sum(1 for w in wants if w[0] != "ok"))
+    for rnd in range(rounds):
+        errors = []
+
+        def worker(wid, rng):
+            for k in range(12):
+                i = rng.randrange(len(pool))
+                cmd, expr, doc, opts = pool[i]
+                want = wants[i]
+                with lock:
+                    outfile = files.out()
+                argv = (["--no-unicode-escape"] if opts["no_unicode_escape"] else []) + [cmd]
+                argv += [patchfiles[expr]] if cmd == "patch" else (["-q" if cmd == "path" else "-p", expr])
+                argv += ["-f", docfiles[doc], "-o", outfile]
+                if opts["no_type_checks"]:
+                    argv.append("--no-type-checks")
+                if opts["uri_decode"]:
+                    argv.append("-u")
+                status, exc, args = 0, None, None
+                try:
+                    args = cli.setup_parser().parse_args(argv)
+                    args.func(args)
+                except SystemExit as e:
+                    status = e.code if isinstance(e.code, int) else (0 if e.code is None else 1)
+                except BaseException as e:  # noqa: BLE001
+                    exc, status = e, 1
+                finally:
+                    for f_ in (vars(args).values() if args is not None else ()):
+                        if hasattr(f_, "close") and f_ not in (sys.stdin, sys.stdout, sys.stderr, sys.__stdout__, sys.__stdin__):
+                            try:
+                                f_.close()
+                            except Exception:  # noqa: BLE001
+                                pass
+                produced = open(outfile, encoding="utf-8").read() if os.path.exists(outfile) else ""
+                bad = None
+                if exc is not None:
+                    bad = "raised %s: %s" % (type(exc).__name__, str(exc)[:120])
+                elif want[0] == "ok":
+                    try:
+                        if status != 0 or not strict_eq(json.loads(produced), want[1]):
+                            bad = "exit %d, output %s" % (status, produced[:160])
+                    except Exception:  # noqa: BLE001
+                        bad = "exit %d, output is not JSON: %s" % (status, produced[:160])
+                elif status != 1 or produced.strip():
+                    bad = "exit %d (the library rejects this input: %s), output %s" % (status, want[1], produced[:160])
+                if bad:
+                    errors.append({"argv": [a if not a.startswith(tmp) else "<file>" for a in argv], "alone": repr(want)[:200], "among_other_invocations": bad})
+                    return
+        st = threads.stress(worker, nthreads=6, files=("cli.py", "env.py", "parse.py", "lex.py", "pointer.py", "patch.py", "path.py"), seed=ctx.seed * 1000 + rnd, prob=0.06)
+        ctx.evaluation(6 * 12)
+        ctx.case(h("threads", st["signature"]), True)
+        ctx.count("concurrent_invocations", 6 * 12)
+        ctx.count("injected_yields", st["yields"])
+        ctx.count("thread_switches_at_injected_yields", st["switches"])
+        if st["timed_out"]:
+            ctx.notes.append("a thread round timed out (inconclusive)")
+        if errors:
+            ctx.violation("invocation-among-concurrent-invocations-differs-from-the-invocation-alone", {"kind": "threads"}, errors[0])
+            break
+    shutil.rmtree(tmp, ignore_errors=True)
+
+
 def option_product(cmd):
     keys = ["debug", "pretty", "no_unicode_escape", "expr_file", "doc_stdin", "out_file"]
     keys += ["no_type_checks"] if cmd == "path" else ["uri_decode"]
@@ -289,6 +387,9 @@ def run(spec, ctx):
     from rt.harness import REPO, VERIF
 
     r = ctx.rng
+    if spec.get("kind") == "threads":
+        run_threads(ctx, spec["rounds"])
+        return
     cmd = spec["cmd"]
     tmp = os.path.join(VERIF, "out", "C18", "tmp-%s-%d" % (cmd, spec["part"]))
     shutil.rmtree(tmp, ignore_errors=True)
@@ -414,6 +515,9 @@ def finalize(m, tier):
 def replay(case, ctx):
     from rt.harness import REPO, VERIF
 
+    if case.get("kind") == "threads":
+        run_threads(ctx, 20)
+        return
     tmp = os.path.join(VERIF, "out", "C18", "tmp-replay")
     files = Files(tmp)
     try:
